@@ -173,7 +173,7 @@ def check_module(ctx, source: str, funcs, only_func=None, only_args=None, kwargs
                         vsrc = None
                     ctx.violation(key, what, {"source": source, "func": name, "params": [[p, ty.render(t_)] for p, t_ in params],
                                               "args": [a.src for a in args], "value": vsrc, "node": ast.unparse(node), "where": where,
-                                              "lineno": node.lineno})
+                                              "lineno": node.lineno, "equal_literal": equals_an_inferred_literal(value, v)})
         for k, entry in enumerate(ins.table):
             if entry is not None and ins.nodes[k] is not None:
                 ctx.histo("node_x_valueclass", f"{type(ins.nodes[k]).__name__}:{type(entry[1]).__name__}")
@@ -181,6 +181,24 @@ def check_module(ctx, source: str, funcs, only_func=None, only_args=None, kwargs
             ctx.sample({"function": function_source(source, funcs[0][0])[:1500]})
     finally:
         ins.dispose()
+
+
+def equals_an_inferred_literal(value, v) -> bool:
+    """The runtime value is a container that compares equal (==, same outer type) to a literal member of the inferred
+    value although the membership oracle tells them apart: nested elements differ in type ([Num.ONE] == [1],
+    {'a': True} == {'a': 1}).  KnownValue.__eq__ compares unhashable / container literals with ==, so unite_values
+    keeps only one of two such literals."""
+    if not isinstance(value, (list, tuple, dict, set, frozenset)):
+        return False
+    try:
+        from pyanalyze.value import KnownValue, flatten_values
+
+        for m in flatten_values(v, unwrap_annotated=True):
+            if isinstance(m, KnownValue) and type(m.val) is type(value) and m.val == value:
+                return True
+    except Exception:  # noqa: BLE001
+        pass
+    return False
 
 
 def holder_of(source: str, lineno, default: str) -> str:
@@ -305,7 +323,87 @@ def _cross_type_equal(minsrc: str, fname: str, args) -> bool:
     return False
 
 
-def mechanism_key(minkey: str, minsrc: str, fname: str, params=None, args=None, node_src=None, lineno=None) -> str:
+def _runtime_cross_type_equal(minsrc: str, fname: str, entry: str, args) -> bool:
+    """Executes the minimal program (instrumented, no checker) and looks at the operands every ==/!=/in/not in/match-value
+    test actually saw: True when some operand equals a tested literal of ANOTHER type (False == 0, Num.TWO == 2,
+    1.0 == 1) - also when the operand is a local value (`ok = isinstance(..)`; `for e in x`) and not an argument."""
+    try:
+        ins = instrument.Instrumented(minsrc)
+    except Exception:  # noqa: BLE001
+        return False
+    try:
+        seen: dict = {}
+
+        def on_value(k, value):
+            lst = seen.setdefault(ins.keys[k], [])
+            if len(lst) < 20:
+                lst.append(value)
+
+        ins.on_value = on_value
+        ns = dict(ty.eval_ns())
+        f = getattr(ins.module, entry, None)
+        if f is None:
+            return False
+        prelude._flip[0] = False
+        try:
+            f(*[eval(a, ns) for a in args])
+        except BaseException:  # noqa: BLE001
+            pass
+
+        def values_of(node):
+            if isinstance(node, ast.Constant):
+                return [node.value]
+            try:
+                return [eval(compile(ast.Expression(node), "<lit>", "eval"), ns)] if not any(isinstance(n, ast.Name) and n.id not in ns for n in ast.walk(node)) else seen.get(instrument.node_key(node), [])
+            except Exception:  # noqa: BLE001
+                return seen.get(instrument.node_key(node), [])
+
+        def clash(objs, lits) -> bool:
+            for o in objs:
+                for l in lits:
+                    try:
+                        if o == l and type(o) is not type(l):
+                            return True
+                    except Exception:  # noqa: BLE001
+                        pass
+            return False
+
+        for node in ast.walk(ins.tree):
+            if isinstance(node, ast.Compare):
+                operands = [node.left] + list(node.comparators)
+                for op, a, b in zip(node.ops, operands, operands[1:]):
+                    va, vb = values_of(a), values_of(b)
+                    if isinstance(op, (ast.Eq, ast.NotEq)):
+                        if clash(va, vb):
+                            return True
+                    elif isinstance(op, (ast.In, ast.NotIn)):
+                        elems = []
+                        for c in vb:
+                            try:
+                                elems += list(c)
+                            except Exception:  # noqa: BLE001
+                                pass
+                        if clash(va, elems):
+                            return True
+            elif isinstance(node, ast.Match):
+                subj = values_of(node.subject)
+                lits = []
+                for sub in ast.walk(node):
+                    if isinstance(sub, ast.MatchValue):
+                        lits += values_of(sub.value)
+                if clash(subj, lits):
+                    return True
+        return False
+    finally:
+        ins.dispose()
+
+
+def mechanism_key(minkey: str, minsrc: str, fname: str, params=None, args=None, node_src=None, lineno=None, entry=None,
+                  equal_literal=False) -> str:
+    if equal_literal:
+        return "literal-merge|container-literal-equal-to-one-with-elements-of-another-type-is-merged-with-it"
+    if params is not None and args is not None:
+        args = list(args)[:len(params)]  # (the caller appends the violating value as a further candidate)
     parts = minkey.split("|")
     node, mismatch = parts[0], parts[-1]
     if mismatch.endswith("not in Never"):
@@ -316,7 +414,7 @@ def mechanism_key(minkey: str, minsrc: str, fname: str, params=None, args=None, 
         re.search(r"(?:if|ifexp|assert|guard)\[[^\]]*\b(?:Subscript|Attribute)\b", feats))
     if params is not None and truthy_feats and _falsy_member_of_always_true_type(params, args):
         return "truthiness|falsy-member-of-type-assumed-always-true"
-    if args is not None and _cross_type_equal(minsrc, fname, args):
+    if args is not None and (_cross_type_equal(minsrc, fname, args) or _runtime_cross_type_equal(minsrc, fname, entry or fname, args)):
         return "equality-narrowing|argument-equals-literal-of-other-type"
     if node_src and lineno and _composite_read_after_branch_that_assigned_it(minsrc, fname, node_src, lineno):
         return "composite|x[const]-after-a-branch-that-assigned-it-forgets-the-path-that-did-not"
@@ -485,7 +583,8 @@ def report(ctx, w, rawkey: str, occurrences: int = 1):
     extra = [hit["witness"]["value"]] if hit.get("witness", {}).get("value") else []
     holder = holder_of(minsrc, hit.get("witness", {}).get("lineno"), w["func"])
     key = mechanism_key(minkey, minsrc, holder, params, list(w["args"]) + extra, hit.get("witness", {}).get("node"),
-                        hit.get("witness", {}).get("lineno"))
+                        hit.get("witness", {}).get("lineno"), entry=w["func"],
+                        equal_literal=bool(hit.get("witness", {}).get("equal_literal")))
     w2 = dict(w)
     w2["source"] = minsrc
     what = hit["what"] + "\n--- minimal program ---\n" + function_source(minsrc, w["func"])
